@@ -18,8 +18,10 @@ pub fn string_symbol(vm: &mut Vm) -> Result<VCell, Error> {
     let sym = s
         .char_indices()
         .map(|(idx, c)| match c {
-            c if idx == 0 && lex::is_initial_identifier(c) => c.to_string(),
-            c if idx > 0 && lex::is_subsequent_identifier(c) => c.to_string(),
+            // A backslash introduces an escape when the name is decoded again
+            // (symbol->string), so it must itself be written as an escape.
+            c if c != '\\' && idx == 0 && lex::is_initial_identifier(c) => c.to_string(),
+            c if c != '\\' && idx > 0 && lex::is_subsequent_identifier(c) => c.to_string(),
             c => format!("\\x{:x};", c as u32),
         })
         .collect::<String>();
